@@ -55,9 +55,9 @@ func c03fn(out *rec.Out, rng *rec.Rng, tier string, stats map[string]int) {
 }
 
 type c03case struct {
-	n, m  int
-	perm  []int // order in which the n upstream tasks are answered
-	acts  int   // consecutive activations (loop iterations)
+	n, m int
+	perm []int // order in which the n upstream tasks are answered
+	acts int   // consecutive activations (loop iterations)
 }
 
 func perms(n int) [][]int {
